@@ -45,9 +45,11 @@ func vMsgsEqual(got, ref []vMsgOut, label string) {
 
 // vC15File writes the workload for C15 (concrete log times for the time-ordered indexed reads would hide
 // nothing here: delivery is what varies; all values stay symbolic).
-func vC15File(tpl, cfg, cs int) []byte {
+func vC15File(tpl, cfg, cs int) []byte { return vC15FileSkip(tpl, cfg, cs, 0) }
+
+func vC15FileSkip(tpl, cfg, cs, skip int) []byte {
 	wl := vMakeWorkload(tpl, 1, 2, 0)
-	opts := vOptions(cfg, 0, int64(cs))
+	opts := vOptions(cfg, skip, int64(cs))
 	w, file := vWriteAll(wl, opts)
 	vAssumeChunkCRCsNonZero(w, file, opts.IncludeCRC)
 	return file
@@ -164,11 +166,12 @@ func VC15Err() {
 
 // C15 (seek failures): the Seek call with symbolic index S fails: an index-based read (and Info) ends with an
 // error - never a clean end-of-file, never a crash - and the messages returned before it are a prefix.
-// params: tpl, cfg, cs, ord, slo, shi (cell of S)
+// params: tpl, cfg, cs, ord, skip, slo, shi (cell of S)
 func VC15Seek() {
 	vIdealCRC() // two CRC values are equal exactly when the bytes fed are equal (no accidental collisions)
 	tpl, cfg, cs, ord := vParam("tpl"), vParam("cfg"), vParam("cs"), vParam("ord")
-	file := vC15File(tpl, cfg, cs)
+	// skip: Skip* mask of the writer (64 = no chunk indexes: Messages() then falls back to a scan after seeking back)
+	file := vC15FileSkip(tpl, cfg, cs, vParam("skip"))
 	ref, rerr := vIndexedMessages(vNewSource(file), ord)
 	vAssert(rerr == io.EOF, "plain indexed read ends with EOF")
 	S := vSymInt("S")
